@@ -92,11 +92,32 @@ class LayoutEdgeSegmentSeparation
     bool operator<(const LayoutEdgeSegmentSeparation& rhs) const
     {
         COLA_ASSERT((var1 != rhs.var1) || (var2 != rhs.var2));
-        if (distance == rhs.distance)
+        if (distance != rhs.distance)
         {
-            return (var1 < rhs.var1) || (var2 < rhs.var2);
+            return distance < rhs.distance;
         }
-        return distance < rhs.distance;
+        // Order equal distances by the connector and then the positions
+        // of the segments, rather than by pointer value, so the order does
+        // not depend on where the variables were allocated.
+        if (connRef->id() != rhs.connRef->id())
+        {
+            return connRef->id() < rhs.connRef->id();
+        }
+        if (var1->desiredPosition != rhs.var1->desiredPosition)
+        {
+            return var1->desiredPosition < rhs.var1->desiredPosition;
+        }
+        if (var2->desiredPosition != rhs.var2->desiredPosition)
+        {
+            return var2->desiredPosition < rhs.var2->desiredPosition;
+        }
+        // Last resort.  Compare lexicographically so this is a valid
+        // strict weak ordering.
+        if (var1 != rhs.var1)
+        {
+            return var1 < rhs.var1;
+        }
+        return var2 < rhs.var2;
     }
 };
 typedef std::set<LayoutEdgeSegmentSeparation> LayoutEdgeSegmentSeparations;
